@@ -160,7 +160,7 @@ CHECKS.update({
               "decode(encode v) == v consuming exactly the written bytes; no encoding is a prefix of another value's (all values of a type sorted "
               "by encoding); sliding triples written back to back are read back in sequence."),
         design_ref="DESIGN.md 4/C12",
-        note="Default feature set only (smallvec/bitvec impls are not compiled offline into the harness); container lengths <= 3 (+ selected long ones); interned handles are covered by C15.",
+        note="Container lengths <= 3 (+ selected long ones); the smallvec/bitvec feature build is covered by a second binary (vopt: SmallVec N=0/1/2/4, BitVec over 4 storage widths x 2 bit orders, every bit string to length 10 + boundary lengths to 129); interned handles are covered by C15. Fix F17 (BitVec round trip) is recorded in known_findings.json.",
     ),
     "C13": dict(
         category="exploration",
@@ -245,7 +245,7 @@ def main():
             na.append({"property_id": pid, "reason": NOT_YET.get(pid, "check under construction in this build round (see DESIGN.md section 4 for the planned bounded-exhaustive check); not claimed until it runs green")})
     m = {
         "version": 1,
-        "setup_cmd": "cd /verif/harness && CARGO_NET_OFFLINE=true cargo build --release --offline -p vh && CARGO_NET_OFFLINE=true cargo build --release --offline -p vkv",
+        "setup_cmd": "cd /verif/harness && CARGO_NET_OFFLINE=true cargo build --release --offline -p vh && CARGO_NET_OFFLINE=true cargo build --release --offline -p vopt && CARGO_NET_OFFLINE=true cargo build --release --offline -p vkv",
         "hooks": {
             "guard": "cargo feature `verif` of crates qbice and qbice_storage (optional dependency qbice_verif_rt)",
             "enable": "harness depends on qbice with default-features=false, features=[\"verif\"]; per-file `#[cfg(feature = \"verif\")] use qbice_verif_rt::{tokio, std, parking_lot, crossbeam_channel};` alias imports",
